@@ -83,8 +83,9 @@ pub fn decode_mutations(bytes: &[Word]) -> Result<Vec<Mutation>, MutationDecodeE
     // Saturating cast
     let len: usize = bytes[0].try_into().unwrap_or(usize::MAX);
 
-    // FIXME: Do a max size check to avoid a DoS attack that allocates too much memory.
-    let mut mutations = Vec::with_capacity(len);
+    // The count is untrusted: never reserve more than the input could hold
+    // (every mutation takes at least two words).
+    let mut mutations = Vec::with_capacity(len.min(bytes.len() / 2));
     if len == 0 {
         return Ok(mutations);
     }
